@@ -15,7 +15,7 @@ def run(ctx):
     devs_all = []
     for k, cs in enumerate(QUICK if q else ALL):
         tf = ctx.work + "/trace_%d.ndjson" % k
-        s, _ = ctx.run_vh(["screen", "--charset", cs, "--mix", "legacy", "--terms", TERMS, "--random", 3 if q else 25, "--ops", 30,
+        s, _ = ctx.run_vh(["screen", "--charset", cs, "--mix", "legacy", "--terms", TERMS, "--random", 3 if q else 25, "--ops", 30, "--localevia", ["LC_ALL", "LC_CTYPE", "LANG"][k % 3],
                            "--seed", ctx.seed + k, "--out", tf], timeout=3000)
         r = ctx.validate_parallel("TScreenTrace", tf, parts=4 if q else 8, expect_events=s.get("events"), timeout=3400)
         mine = [d for d in r["devs"] if d["tag"].startswith("C17.") or d["tag"] in ("C01.cell", "C09.malformed")]
@@ -39,4 +39,5 @@ def run(ctx):
     ctx.finish("exploration",
                rule="random draw histories with runes the locale has and lacks, line-drawing runes, RegisterRuneFallback / "
                     "UnregisterRuneFallback and CanDisplay calls, under each charset on terminals with VT100, CP437 and no ACS map; "
-                    "every written byte is decoded by the reference terminal in that charset")
+                    "every written byte is decoded by the reference terminal in that charset; the charset reaches tcell through LC_ALL, LC_CTYPE or LANG in turn, "
+                    "the other variables naming a different one")
